@@ -274,6 +274,7 @@ type vf6Run struct {
 	base        time.Time
 	completions int
 	sub         func(what string, err error) // emits one line per gate step inside "settle"
+	mid         func()                       // runs once while the next stepped job body is running
 }
 
 func vf6Bits(b bitmask.LongBitmask) []uint {
@@ -341,6 +342,15 @@ func (r *vf6Run) settle() error {
 }
 
 // step advances parked job j by one gate.
+func (r *vf6Run) bumpGen(conv string) {
+	p := filepath.Join(filepath.Dir(filepath.Clean(r.mgr.ConverterDir)), "gen-"+conv)
+	n := 0
+	if b, err := os.ReadFile(p); err == nil {
+		fmt.Sscanf(string(b), "%d", &n)
+	}
+	_ = os.WriteFile(p, []byte(fmt.Sprintf("%d\n", n+1)), 0644)
+}
+
 func (r *vf6Run) step(seq int) (string, error) {
 	r.ctl.mu.Lock()
 	var j *vf6Job
@@ -362,6 +372,11 @@ func (r *vf6Run) step(seq int) (string, error) {
 	j.phase++
 	close(j.rel)
 	r.ctl.mu.Unlock()
+	if f := r.mid; f != nil {
+		// something that happens while the job body runs
+		r.mid = nil
+		f()
+	}
 	deadline := time.Now().Add(8 * time.Second)
 	if from == 0 {
 		for {
@@ -630,8 +645,16 @@ func vf6MakePacket(a, b string, ts time.Time, payload string) pcapOverIPPacket {
 }
 
 const vf6ConverterScript = `#!/usr/bin/python3 -SE
-import base64, json, sys, os
+import base64, json, sys, os, time
 name = os.path.basename(sys.argv[0])
+# the "executable generation": bumped by the harness before it restarts the converter (ResetConverter); processes started
+# afterwards answer with the new generation in their output
+gen = "0"
+try:
+    gen = open(os.path.join(os.path.dirname(os.path.dirname(os.path.abspath(sys.argv[0]))), "gen-" + name)).read().strip()
+except OSError:
+    pass
+tagname = name if gen == "0" else name + "@" + gen
 while True:
     line = sys.stdin.readline()
     if line == "":
@@ -649,7 +672,9 @@ while True:
             c += d
         else:
             s += d
-    out = name.encode() + b"#" + c.hex().encode() + b"#" + s.hex().encode()
+    if name == "cvs":
+        time.sleep(0.25)      # a slow converter: its answers overlap other manager activity
+    out = tagname.encode() + b"#" + c.hex().encode() + b"#" + s.hex().encode()
     if name == "cvb" and (b"flagX" in c or b"flagX" in s):
         # a buggy converter: a chunk with a direction that does not exist, then the rest of a well-formed answer
         print(json.dumps({"Direction": "sideways", "Content": base64.b64encode(b"???").decode(), "Time": "2020-01-01T12:00:00.000000"}))
@@ -724,7 +749,29 @@ func (r *vf6Run) doAction(raw json.RawMessage) (act []interface{}, res string, i
 	case "setconv":
 		res = vf6ErrClass(mgr.UpdateTag(str(1), UpdateTagOperationSetConverter(strs(2))))
 	case "resetconv":
+		r.bumpGen(str(1))
 		res = vf6ErrClass(mgr.ResetConverter(filepath.Join(mgr.ConverterDir, str(1))))
+	case "convreset":
+		// ["convreset", conv] : the parked converter job passes its start gate and, while its conversions are running,
+		// the converter is restarted (new executable generation, ResetConverter)
+		res = "noop"
+		for _, j := range r.parked() {
+			if j.kind == "convert" && j.phase == 0 {
+				var rerr error
+				r.mid = func() {
+					time.Sleep(100 * time.Millisecond)
+					r.bumpGen(str(1))
+					rerr = mgr.ResetConverter(filepath.Join(mgr.ConverterDir, str(1)))
+				}
+				var what string
+				what, err = r.step(j.seq)
+				res = what
+				if rerr != nil {
+					res = "err:" + rerr.Error()
+				}
+				break
+			}
+		}
 	case "step":
 		js := r.parked()
 		if len(js) == 0 {
